@@ -146,6 +146,43 @@ def laws():
                 residual = alt
         return Case(residual + extra, assume=assume)
 
+    # an equation whose left-hand side is the bare unknown while the unknown ALSO occurs on the right: the expression is lhs - rhs
+    # (NUMERIC coefficients of the unknown on the right, so that SymPy merges the two occurrences into one term and "the coefficient of
+    # that term" is unambiguous; with a symbolic coefficient the unknown stays in two terms and either may be chosen)
+    @law("solve_for_vector/equation-with-the-unknown-on-both-sides", [(f, r) for f in ("2*u+b", "3*u+k1*b+cross", "u/2+b") for r in (True, False)],
+         ["solvers.solve_for_vector"])
+    def _(s, g):
+        sy, env, k = setup(g)
+        u, b, c = sy[0], sy[1], sy[2]
+        rhs = {"2*u+b": 2 * u + b, "3*u+k1*b+cross": 3 * u + k[1] * b + V.VectorCross(b, c), "u/2+b": u / 2 + b}[s[0]]
+        expr = u - rhs
+        res = S.solve_for_vector(sp.Eq(u, rhs, evaluate=False), u, reduce_factor=s[1])
+        if not isinstance(res, sp.Eq):
+            raise AssertionError(f"result is not an equation: {res}")
+        diff = _asvec(*sem(res.lhs - res.rhs, env))
+        e = _asvec(*sem(expr, env))
+        kappa = {"2*u+b": sp.Integer(-1), "3*u+k1*b+cross": sp.Integer(-2), "u/2+b": sp.Rational(1, 2)}[s[0]]
+        if s[1]:
+            # lhs - rhs == expr / kappa, and the solved side no longer contains the unknown
+            res_ = [kappa * d - x for d, x in zip(diff, e)]
+            res_.append(sp.Integer(1 if sp.sympify(res.rhs).has(u) else 0))
+            return Case(res_, assume=[sp.Ne(kappa, 0)])
+        alt1 = [d - x for d, x in zip(diff, e)]
+        alt2 = [d + x for d, x in zip(diff, e)]
+        from ..sym2smt import nf_is_zero
+        return Case(alt2 if all(nf_is_zero(r) is True for r in alt2) else alt1)
+
+    @law("solve_for_vector/unknown-is-not-a-term(eq-with-cancelling-unknown);non-atomic-unknown-is-refused",
+         [("eq-cancels",), ("2*u",), ("-u",), ("u/k",), ("-cross(b,c)",), ("u+b",)], ["solvers.solve_for_vector"])
+    def _(s, g):
+        sy, env, k = setup(g)
+        u, b, c = sy[0], sy[1], sy[2]
+        if s[0] == "eq-cancels":
+            return Case(raises=(ValueError, TypeError), thunk=lambda: S.solve_for_vector(sp.Eq(u, u + b, evaluate=False), u))
+        unknown = {"2*u": 2 * u, "-u": -u, "u/k": u / k[0], "-cross(b,c)": -V.VectorCross(b, c), "u+b": u + b}[s[0]]
+        expr = k[1] * V.VectorCross(b, c) + k[2] * u + k[3] * sy[3]
+        return Case(raises=(ValueError, TypeError), thunk=lambda: S.solve_for_vector(expr, unknown))
+
     @law("solve_for_vector/refuses-non-member-vector-and-non-vector-expression", [("nonmember",), ("nonvector",), ("nonvector-eq",), ("vector-in-denominator",), ("product-of-two-vectors",), ("scalar-plus-vector",)],
          ["solvers.solve_for_vector", "vectors.is_vector_expr"])
     def _(s, g):
